@@ -246,6 +246,8 @@ func init() {
 			{Entry: "HarnessC16SnippetWide", Args: []int64{4}, Bound: "source lines of 4 units from {a, space, tab, U+200B, U+3042, U+00E9, U+0301} x 64-bit symbolic column; display widths of the library taken as given", Require: []string{"rendered", "caret"}},
 			{Entry: "HarnessC16TypeNames", Args: []int64{1}, Bound: "a user-chosen name of 1 arbitrary byte (matrix row / include key, dispatch / call input, secret, job output) printed inside an object type", Require: []string{"diagnostic", "type-printed"}},
 			{Entry: "HarnessC16TypeNames", Args: []int64{2}, Bound: "... 2 arbitrary bytes", Require: []string{"diagnostic", "type-printed"}},
+			{Entry: "HarnessC16Docker", Args: []int64{3}, Bound: "uses: docker:// + 3 arbitrary bytes (url.Parse on symbolic text is a free-error contract stub)", Require: []string{"linted"}},
+			{Entry: "HarnessC16Docker", Args: []int64{4}, Bound: "... 4 arbitrary bytes", Require: []string{"linted"}},
 			{Entry: "HarnessC16Glob", Args: []int64{2, 0}, Bound: "filter-pattern validator messages for every 2-byte pattern", Require: []string{"diagnostic"}},
 			{Entry: "HarnessC16Glob", Args: []int64{3, 0}, Bound: "... every 3-byte pattern", Require: []string{"diagnostic"}},
 			{Entry: "HarnessC16Glob", Args: []int64{5, 1}, Bound: "... every 5-byte pattern over [ ] - \\ ! * ? a b LF CR space /", Require: []string{"diagnostic"}},
